@@ -44,14 +44,14 @@ Definition two31 : N := 2147483648.
 Definition int32_text (c : N) : bytes :=
   if c <? two31 then print_dec c else x2d :: print_dec (Codes.two32 - c).
 
-(* grpcErrorToTrailer: mergeHeaders(trailer, err.meta), then Set status / message / details *)
+(* grpcErrorToTrailer: mergeMetadataHeaders(trailer, err.meta), then Set status / message / details *)
 Definition grpc_error_to_trailer (trailer : hmap) (e : option err) : hmap :=
   match e with
   | None => set hdr_grpc_message [] (set hdr_grpc_status [x30] trailer)
   | Some e =>
     set hdr_grpc_details (encode_binary_header (status_marshal (e_code e) (e_msg e) (e_details e)))
       (set hdr_grpc_message (percent_encode (e_msg e))
-        (set hdr_grpc_status (int32_text (e_code e)) (merge trailer (e_meta e))))
+        (set hdr_grpc_status (int32_text (e_code e)) (merge_metadata trailer (e_meta e))))
   end.
 
 (* grpcErrorFromTrailer on the trailers (or trailers-only headers) the client
@@ -114,7 +114,8 @@ Lemma grpc_error_roundtrip_lemma : forall (headers trailer : hmap) (e : err),
     grpc_error_from_trailer_full headers (grpc_error_to_trailer trailer (Some e)) = inl (Some e') /\
     e_code e' = e_code e /\ e_msg e' = e_msg e /\ e_details e' = e_details e /\
     forall k, ~ reserved_grpc k ->
-      values k (e_meta e') = values k headers ++ values k trailer ++ values k (e_meta e).
+      values k (e_meta e') = values k headers ++ values k trailer ++
+                             (if message_header k then [] else values k (e_meta e)).
 Proof.
   intros headers trailer e Hnz Hlt31 Hbin.
   assert (Hlt : e_code e < Codes.two32) by (unfold two31, Codes.two32 in *; lia).
@@ -137,7 +138,7 @@ Proof.
   rewrite values_set_other by (intro; apply Hk; unfold reserved_grpc; auto).
   rewrite values_set_other by (intro; apply Hk; unfold reserved_grpc; auto).
   rewrite values_set_other by (intro; apply Hk; unfold reserved_grpc; auto).
-  apply values_merge.
+  apply values_merge_metadata.
 Qed.
 
 (* success is encoded as status "0" and decoded as success *)
@@ -155,7 +156,7 @@ Qed.
    metadata merged into the headers (trailers already prefixed) *)
 Definition connect_unary_error_response (header trailer : hmap) (e : err) : N * hmap * bytes :=
   (connect_code_to_http (e_code e),
-   merge (merge header (e_meta e)) (prefix_all connect_unary_trailer_prefix trailer),
+   merge (merge_metadata header (e_meta e)) (prefix_all connect_unary_trailer_prefix trailer),
    wire_marshal (code_string (e_code e)) (e_msg e) (e_details e)).
 
 (* connectUnaryClientConn.validateResponse for a non-200 status *)
@@ -188,20 +189,21 @@ Lemma connect_unary_error_roundtrip_lemma : forall header trailer e,
   400 <= status < 600 /\
   exists e', connect_unary_error_decode status hdr body = Some e' /\
     e_code e' = e_code e /\ e_msg e' = e_msg e /\ e_details e' = e_details e /\
-    forall k, values k (e_meta e') = values k header ++ values k (e_meta e) ++ values k trailer.
+    forall k, values k (e_meta e') = values k header ++ (if message_header k then [] else values k (e_meta e)) ++ values k trailer.
 Proof.
   intros header trailer e Hnz Hlt Hh Hm. cbn [connect_unary_error_response].
   pose proof (code_http_4xx5xx_lemma (e_code e)) as Hst. split; [exact Hst|].
   unfold connect_unary_error_decode.
   assert ((connect_code_to_http (e_code e) =? 200) = false) as E200 by (apply N.eqb_neq; lia).
   rewrite E200.
-  assert (Hnp : no_prefixed_key connect_unary_trailer_prefix (merge header (e_meta e))).
-  { intros k vs Hin. unfold merge in Hin. apply in_app_or in Hin. destruct Hin as [Hin|Hin]; [eapply Hh | eapply Hm]; eauto. }
+  assert (Hnp : no_prefixed_key connect_unary_trailer_prefix (merge_metadata header (e_meta e))).
+  { intros k vs Hin. unfold merge_metadata, merge in Hin. apply in_app_or in Hin.
+    destruct Hin as [Hin|Hin]; [eapply Hh | eapply Hm; apply metadata_only_subset]; eauto. }
   unfold merge at 1. rewrite (unary_trailer_roundtrip _ _ _ Hnp).
   rewrite wire_roundtrip, (code_string_nonempty _ Hlt), (code_text_roundtrip_lemma _ Hlt).
   apply N.eqb_neq in Hnz. rewrite Hnz.
   eexists. split; [reflexivity|]. cbn [e_code e_msg e_details e_meta]. repeat split.
-  intro k. rewrite !values_merge, app_assoc. reflexivity.
+  intro k. rewrite values_merge, values_merge_metadata, app_assoc. reflexivity.
 Qed.
 
 (* ---- Connect streaming ---- *)
@@ -210,7 +212,7 @@ Qed.
 Definition connect_end_stream (trailer : hmap) (e : option err) : bytes :=
   match e with
   | None => end_marshal None trailer
-  | Some e => end_marshal (Some (code_string (e_code e), e_msg e, e_details e)) (merge trailer (e_meta e))
+  | Some e => end_marshal (Some (code_string (e_code e), e_msg e, e_details e)) (merge_metadata trailer (e_meta e))
   end.
 
 (* connectStreamingUnmarshaler + connectStreamingClientConn.Receive on the end-of-stream payload *)
@@ -231,15 +233,16 @@ Lemma connect_stream_error_roundtrip_lemma : forall headers trailer e,
   exists e' md,
     connect_end_decode headers (connect_end_stream trailer (Some e)) = Some (Some e', md) /\
     e_code e' = e_code e /\ e_msg e' = e_msg e /\ e_details e' = e_details e /\
-    forall k, values k (e_meta e') = values k headers ++ values k trailer ++ values k (e_meta e).
+    forall k, values k (e_meta e') = values k headers ++ values k trailer ++
+                                     (if message_header k then [] else values k (e_meta e)).
 Proof.
   intros headers trailer e Hnz Hlt. unfold connect_end_stream, connect_end_decode.
-  destruct (end_roundtrip (Some (code_string (e_code e), e_msg e, e_details e)) (merge trailer (e_meta e)))
+  destruct (end_roundtrip (Some (code_string (e_code e), e_msg e, e_details e)) (merge_metadata trailer (e_meta e)))
     as (md' & Hu & Hv).
   rewrite Hu, (code_string_nonempty _ Hlt), (code_text_roundtrip_lemma _ Hlt).
   apply N.eqb_neq in Hnz. rewrite Hnz.
   eexists. eexists. split; [reflexivity|]. cbn [e_code e_msg e_details e_meta]. repeat split.
-  intro k. rewrite values_merge, Hv, values_merge. reflexivity.
+  intro k. rewrite values_merge, Hv, values_merge_metadata. reflexivity.
 Qed.
 
 Lemma connect_stream_ok_roundtrip headers trailer : exists md,
@@ -252,6 +255,30 @@ Qed.
 
 (* ---- plain Go errors: wrapIfUncoded ---- *)
 Definition wrap_uncoded (text : bytes) : err := mkErr code_unknown text [] [].
+
+(* A handler that relays an error it got from a client call relays that
+   response's headers as the error's metadata.  The names that describe an HTTP
+   message (Content-Type, Content-Length, Content-Encoding, ...) are not written
+   to the response this handler produces, on any protocol: what the handler
+   itself set under those names is all there is. *)
+Lemma relayed_message_headers_lemma : forall header trailer (e : err) k,
+  message_header k = true ->
+  (~ reserved_grpc k -> values k (grpc_error_to_trailer trailer (Some e)) = values k trailer) /\
+  (let '(_, hdr, _) := connect_unary_error_response header trailer e in
+   values k hdr = values k header ++ values k (prefix_all connect_unary_trailer_prefix trailer)) /\
+  (exists md, connect_end_stream trailer (Some e) =
+                end_marshal (Some (code_string (e_code e), e_msg e, e_details e)) md /\
+              values k md = values k trailer).
+Proof.
+  intros header trailer e k Hm. repeat split.
+  - intro Hk. unfold grpc_error_to_trailer.
+    rewrite values_set_other by (intro; apply Hk; unfold reserved_grpc; auto).
+    rewrite values_set_other by (intro; apply Hk; unfold reserved_grpc; auto).
+    rewrite values_set_other by (intro; apply Hk; unfold reserved_grpc; auto).
+    rewrite values_merge_metadata, Hm, app_nil_r. reflexivity.
+  - cbn [connect_unary_error_response]. rewrite values_merge, values_merge_metadata, Hm, app_nil_r. reflexivity.
+  - eexists. split; [reflexivity|]. rewrite values_merge_metadata, Hm, app_nil_r. reflexivity.
+Qed.
 
 End ErrWire.
 
